@@ -1,6 +1,8 @@
 use crate::report::Ctx;
 pub mod c01;
 pub mod c02;
+pub mod c03;
+pub mod c04;
 pub mod c05;
 pub mod c06;
 pub mod c07;
@@ -14,11 +16,14 @@ pub mod c15;
 pub mod c17;
 pub mod c18;
 pub mod c19;
+pub mod c20;
 
 pub fn lookup(name: &str) -> Option<fn(&mut Ctx)> {
     match name {
         "C01" => Some(c01::run),
         "C02" => Some(c02::run),
+        "C03" => Some(c03::run),
+        "C04" => Some(c04::run),
         "C05" => Some(c05::run),
         "C06" => Some(c06::run),
         "C07" => Some(c07::run),
@@ -33,6 +38,7 @@ pub fn lookup(name: &str) -> Option<fn(&mut Ctx)> {
         "C17" => Some(c17::run),
         "C18" => Some(c18::run),
         "C19" => Some(c19::run),
+        "C20" => Some(c20::run),
         _ => None,
     }
 }
